@@ -557,6 +557,46 @@ for _c in CHECKS:
                              "draws consumed before the error are 'not covered'.")
         _c["technique"] += " + decision tables regenerated from the source by a translator and kernel-checked each run"
 
+# Closed forms regenerated from the source on every run (harness/dsdefs.py, lean/SA/Model/DsDefs.lean, lean/SA/Theorems/C20Defs.lean,
+# lean/SA/Theorems/C16Defs.lean): NormalDataset / from_metrics / the correlated joint distribution (C20), _apply_rule_of_three (C16).
+_DSDEFS = {
+    "C20": ("NormalDataset.fnr / fpr / threshold_at_fnr / threshold_at_fpr (scalar and array argument), __post_init__ run with mu_neg = None / "
+            "0.0 / 7.0 (only None may be replaced: `mu_neg or -mu_pos` is a definite mismatch), roc() in its four call shapes (thresholds and "
+            "the two REPORTED rates per grid entry - the rates AT the computed thresholds, so a curve that returns the requested grid differs "
+            "at an out-of-range rate: NaN vs the number -, or ValueError), the keyword arguments of the NormalDataset(...) that from_metrics "
+            "returns, and CorrelatedBernoullilDataset.sample up to its validity test (the four joint probabilities, which values raise); "
+            "generated theorems generated_c20_normal / _from_metrics / _corr",
+            "normal_eq_model, normal_post_eq_model, normal_roc_eq_model, fm_eq_model, corr_eq_model, corr_valid_eq_model (the model's rows "
+            "evaluate to SA.NormalDataset.fnr / fpr / thresholdAtFnr / thresholdAtFpr / make / roc / fromMetrics and SA.correlatedJoint for "
+            "every input and every oracle), normal_bridge, fm_bridge, corr_bridge"),
+    "C16": ("roc_curve._apply_rule_of_three: the resulting row of ci as a nested ite over (alpha, n, rate, row) - np.where chains, boolean-mask "
+            "assignment and np.select are followed -, width 1 - pow(alpha, 1/n) with an uninterpreted pow, tests `p < 1/n` / `p > (n-1)/n` on the "
+            "RATE array, the second test wins; generated theorem generated_c16_rule3",
+            "rule3_eq_model (the model's row is SA.ruleOfThreeRow for every alpha, n, rate, interval and every pow), rule3_bridge"),
+}
+for _c in CHECKS:
+    if _c["property_id"] in _DSDEFS:
+        _what, _thms = _DSDEFS[_c["property_id"]]
+        _c["level_claimed"]["text"] += (
+            " CLOSED FORMS regenerated from /repo's source on every run: harness/dsdefs.py (Python ast, symbolic run; scipy's loc= / scale= in "
+            "positional, keyword, **dict and frozen form normalised to (x - loc) / scale resp. loc + scale * q) extracts " + _what + " as rows of "
+            "SA.DsDefs.DExpr expressions (uninterpreted cdf / sf / ppf / isf / sqrt / pow; norm.sf(x) and 1 - norm.cdf(x) are DIFFERENT "
+            "expressions) plus outcome codes; a generated Lean file states `checkRow model<Item> row <probes> = <verdict>` per item and the "
+            "kernel checks it (decide +kernel, cached on the generated text). SA/Theorems/C20Defs.lean / C16Defs.lean prove " + _thms + ", "
+            "checkRow_ok_sound (an accepted row has the model's codes and the model's values for ALL inputs and ALL interpretations of the "
+            "uninterpreted functions; expressions are accepted modulo commutativity of + and *, DExpr.eqv_sound) and checkRow_mismatch_sound "
+            "(a reported mismatch is a differing outcome code or a named probe at which an expression differs from the model's under ONE "
+            "named lawful interpretation: cdf = the rational sigmoid sig, sf = 1 - sig, ppf = its inverse on (0,1) / NaN outside [0,1], exact "
+            "square and k-th roots - sig_pos, sig_lt_one, sig_strictMono, sigInv_sig, sig_sigInv, lawF1_lawful). A definite mismatch is a "
+            "broken proof obligation naming item, formula, probe and both values; mathematically equal rewrites (1 - cdf for sf, p*n < 1 for "
+            "p < 1/n, c*(1 + rho*sqrt(p1 p2 / c))) and anything the translator cannot follow (a branch on n > 3, the RNG protocol) are "
+            "`unknown` (evidence only).")
+        _c["level_note"] += (" For the regenerated closed forms the translator harness/dsdefs.py (its reading of the scipy / NumPy idioms) is "
+                             "trusted instead of the hand-written model; it has values only (no aliasing of the caller's arrays, no float "
+                             "rounding, no RNG protocol) and says `unknown` for anything else.")
+        _c["technique"] += " + closed-form formulas regenerated from the source by a translator and kernel-checked each run"
+
+
 NOT_APPLICABLE = [
  {"property_id": p, "reason": "not yet claimed: model/theorems/correspondence for this property are still being built (see DESIGN.md §5 for the plan); the technique is applicable"}
  for p in ALL if p not in _claimed
